@@ -390,4 +390,8 @@ theorem stack_conservation (ops : List SOp) (q : List Int) :
         rw [List.append_assoc]
         exact (List.perm_middle (a := a) (l₁ := q.dropLast) (l₂ := pushed ops)).symm.trans (by simp)
 
+/-- the current code: every wrapper method takes the write lock (tied to queue.go by `C08_modes`) -/
+theorem queueSys_excl : ∀ op, queueSys.mode op = .excl := fun _ => rfl
+theorem stackSys_excl : ∀ op, stackSys.mode op = .excl := fun _ => rfl
+
 end FpgoVerif.C08
